@@ -7,6 +7,7 @@ Z3_TIMEOUT_MS = int(os.environ.get('HIDV_Z3_TIMEOUT_MS', '20000'))
 CVC5_TIMEOUT_S = int(os.environ.get('HIDV_CVC5_TIMEOUT_S', '30'))
 
 PROVED, CEX, UNKNOWN = 'proved', 'cex', 'unknown'
+FAST_BV = False   # the machine is modelled over integers now (contracts/isa.py); QF_AUFBV would treat Int as uninterpreted
 
 
 class Outcome:
@@ -64,6 +65,21 @@ def check(solver: z3.Solver, *extra, timeout_ms=None, strings=False):
 def prove(assumptions, goal, timeout_ms=None, strings=False) -> Outcome:
     """validity of (assumptions -> goal)"""
     t0 = time.time()
+    ans = 'unknown'
+    if FAST_BV and not strings:
+        # the array/bit-vector fragment decides the glue lemmas about twice as fast; anything it cannot take
+        # (Int2BV links of forked runs) falls through to the general solver
+        try:
+            s = z3.SolverFor('QF_AUFBV')
+            s.set('timeout', timeout_ms or Z3_TIMEOUT_MS)
+            s.add(*assumptions); s.add(z3.Not(goal))
+            r = s.check()
+            if r == z3.unsat:
+                return Outcome(PROVED, None, 'z3', '', time.time() - t0)
+            if r == z3.sat:
+                return Outcome(CEX, s.model(), 'z3', '', time.time() - t0)
+        except z3.Z3Exception:
+            pass
     s = z3.Solver()
     s.add(*assumptions)
     ans, backend, reason, model = check(s, z3.Not(goal), timeout_ms=timeout_ms, strings=strings)
